@@ -100,6 +100,7 @@ package setec
 //@   ensures [C12 shared lookupfn.values-kept] forall n string :: (n != name && old(has(s.active.m, n))) ==> (has(s.active.m, n) && s.active.m[n] == old(s.active.m[n]) && s.active.m[n].Secret == old(s.active.m[n].Secret) && s.active.m[n].Declared == old(s.active.m[n].Declared))
 //@   ensures [C12 lookupfn.others-kept] forall n string :: n != name ==> (has(s.active.m, n) == old(has(s.active.m, n)) && (has(s.active.m, n) ==> s.active.m[n].Secret == old(s.active.m[n].Secret)))
 //@   at call Get: assert [C12 lookupfn.no-request-under-lock] !s.active.Mutex
+//@   at call flushCacheLocked: assert [C12,C13 lookupfn.flush-under-the-lock] s.active.Mutex
 //@   at call Get: assert [C16 lookupfn.fallback-5min] hasDeadline(arg_ctx) && (!hasDeadline(ctx) ==> deadlineOf(arg_ctx) <= clock + 300000000000)
 
 //@ func (*Store).lookupSecretInternal(s, ctx, name) (sec, err)
@@ -159,6 +160,7 @@ package setec
 //@ func (*Store).applyUpdates(s, updates) (err)
 //@   requires storeInv(s) && !s.active.Mutex && (forall n string :: has(updates, n) ==> has(s.active.m, n)) && (forall n string :: (has(updates, n) && updates[n] != nil) ==> allocated(updates[n]))
 //@   ensures [C12 apply.inv] storeInv(s) && !s.active.Mutex && handlesKept(s) && net == old(net)
+//@   at call flushCacheLocked: assert [C12,C13 apply.flush-under-the-lock] s.active.Mutex
 //@   ensures [C19 apply.drops-only-marked-unreferenced] forall n string :: (old(has(s.active.m, n)) && !has(s.active.m, n)) ==> (has(updates, n) && updates[n] == nil && !has(s.active.f, n))
 //@   ensures [C11,C19 apply.drops-marked] forall n string :: (has(updates, n) && updates[n] == nil && !old(has(s.active.f, n))) ==> !has(s.active.m, n)
 //@   ensures [C19 apply.flags-kept] forall n string :: has(s.active.m, n) ==> (s.active.m[n].Declared == old(s.active.m[n].Declared) && s.active.m[n].LastAccess == old(s.active.m[n].LastAccess))
@@ -333,6 +335,7 @@ package setec
 //@   requires s != nil && storeInv(s) && !s.active.Mutex && ctx != nil && done != nil && s.newTicker != nil && interval > 0
 //@   interference at Refresh writers (*client/setec.Store).Refresh$1 assume storeInv(s) && !s.active.Mutex && cacheWrites >= old(cacheWrites)
 //@   ensures [C13 run.flush-on-shutdown] s.cache != nil ==> cacheWrites >= old(cacheWrites) + 1
+//@   at call flushCacheLocked: assert [C12,C13 run.flush-under-the-lock] s.active.Mutex
 //@   ensures [C11,C13 run.stops-only-on-cancel] chanFired(doneChan(ctx))
 //@   at call newTicker: assert [C11 run.period-within-10pct] arg_d >= interval - interval / 10 && arg_d <= interval + interval / 10 && arg_d > 0
 //@   loop 0
@@ -366,6 +369,7 @@ package setec
 //@   ensures [C09 do.sentinels] (httpCalls == old(httpCalls) + 1 && lastDoErr == nil && lastReadErr == nil) ==> ((lastStatus == 404 ==> err == api.ErrNotFound) && (lastStatus == 403 ==> err == api.ErrAccessDenied) && (lastStatus == 304 ==> err == api.ErrValueNotChanged))
 //@   ensures [C09 do.other-status] (httpCalls == old(httpCalls) + 1 && lastDoErr == nil && lastStatus != 200 && lastStatus != 404 && lastStatus != 403 && lastStatus != 304) ==>
 //@        (err != nil && err != api.ErrNotFound && err != api.ErrAccessDenied && err != api.ErrValueNotChanged)
+//@   ensures [C16 do.transport-error-is-wrapped] (httpCalls == old(httpCalls) + 1 && lastDoErr != nil) ==> (err != nil && errIs(err, lastDoErr))
 //@   ensures [C09 do.one-request] httpCalls == old(httpCalls) || httpCalls == old(httpCalls) + 1
 //@   ensures [C09 do.sentinel-only-from-status] (err == api.ErrNotFound ==> (httpCalls == old(httpCalls) + 1 && lastDoErr == nil && lastStatus == 404)) && (err == api.ErrAccessDenied ==> (httpCalls == old(httpCalls) + 1 && lastDoErr == nil && lastStatus == 403)) && (err == api.ErrValueNotChanged ==> (httpCalls == old(httpCalls) + 1 && lastDoErr == nil && lastStatus == 304))
 //@   at call Set: assert [C08 do.headers] (arg_key == "Content-Type" && arg_value == "application/json") || (arg_key == "Sec-X-Tailscale-No-Browsers" && arg_value == "setec")
